@@ -580,11 +580,31 @@ def check_C11(case, B):
 
     def emit(key, what, **kw):
         B.emit(key, what, _case_of(case), **kw)
+    xh = case.get("xhistory")                  # [[format, threshold], ...] on ONE Shaper; both formats occur at the final threshold
     try:
         sh = B.call(lambda: SU.new_shaper(case["input"], cfg))
         B.evaluations -= 1
-        text = B.call(lambda: SU.shex(sh, SHEXC, t))
-        ttl = B.call(lambda: SU.shex(sh, SHACL, t))
+        if xh:
+            last = {}
+            for fmt, tt in xh:
+                last[fmt] = (tt, B.call(lambda fmt=fmt, tt=tt: SU._shex(sh, fmt, tt)))
+            t = xh[-1][1]
+            if any(last.get(f, (None,))[0] != t for f in (SHEXC, SHACL)):
+                B.notes["xhistory without both formats at the final threshold (skipped)"] += 1
+                return
+            text, ttl = last[SHEXC][1], last[SHACL][1]
+            # the expectation from the data at the final threshold: fresh Shapers (both documents may be stale together)
+            f_text = B.call(lambda: SU._shex(SU.new_shaper(case["input"], cfg), SHEXC, t))
+            f_ttl = B.call(lambda: SU._shex(SU.new_shaper(case["input"], cfg), SHACL, t))
+            if text != f_text:
+                emit("C11:call-history:stale-shexc", "after the calls %r on one Shaper the ShExC document for threshold %r differs from the one a fresh "
+                     "Shaper extracts from the same data at that threshold" % (xh, t), shexc=text[:1200], fresh=f_text[:1200])
+            if SU.History.canon(SHACL, ttl) != SU.History.canon(SHACL, f_ttl):
+                emit("C11:call-history:stale-shacl", "after the calls %r on one Shaper the SHACL document for threshold %r differs from the one a fresh "
+                     "Shaper extracts from the same data at that threshold" % (xh, t), shacl=ttl[:1200], fresh=f_ttl[:1200])
+        else:
+            text = B.call(lambda: SU.shex(sh, SHEXC, t))
+            ttl = B.call(lambda: SU.shex(sh, SHACL, t))
         doc = B.parse(text)
     except U.Skipped:
         return
@@ -667,6 +687,12 @@ def gen_C11(tier, rng):
             cfg = _merge(PL._mode_cfg(modes[(gi + j) % 3]), {"inverse_paths": True} if (gi + j) % 2 else {},
                          {} if j == 0 else PL._switch_combo(rng, 0.5))
             cases.append({"pid": "C11", "origin": origin, "input": {"format": "nt", "text": nt}, "cfg": cfg, "t": (0, 0.5, 1)[(gi + 2 * j) % 3]})
+            if j == 0 and gi % (4 if tier == "selftest" else 20) == 3:       # cross-format call history on one Shaper
+                t1, t2 = ((0, 0.5), (0, 1), (0.5, 1), (1, 0), (0.5, 0), (1, 0.5))[(gi // 4) % 6]
+                seqs = ([[SHACL, t1], [SHACL, t2], [SHEXC, t2]], [[SHEXC, t1], [SHACL, t1], [SHEXC, t2], [SHACL, t2]],
+                        [[SHEXC, t1], [SHEXC, t2], [SHACL, t2]], [[SHACL, t1], [SHEXC, t1], [SHACL, t2], [SHEXC, t2]])
+                cases.append({"pid": "C11", "origin": "cross-format-history", "input": {"format": "nt", "text": nt}, "cfg": cfg, "t": t2,
+                              "xhistory": seqs[(gi // 20 + gi) % 4]})
     return cases
 
 
@@ -945,7 +971,7 @@ def c17_graph(rng, nss):
         T.append(M.Triple(inst[classes[0]][0], ty, M.IRI(classes[1])))
     everyone = [x for C in classes for x in inst[C]]
     vals = [M.Lit("x"), M.Lit("y y"), M.Lit("1", dt=M.XSD_INTEGER), M.Lit("v", dt=U.DT_FOO), M.IRI(G.OTHER + "u1"), M.IRI("https://c.org/deep/u2"),
-            M.IRI("urn:x:u3")]
+            M.IRI("urn:x:u3"), M.Lit(" Al "), M.Lit("Bobby  "), M.Lit("  Caz")]
     props = [G.EX + "p", G.OTHER + "q", G.EX + "sub/r"]
     for _ in range(rng.randint(2, 10)):
         s = rng.choice(everyone)
@@ -1036,6 +1062,11 @@ def check_C17(case, B):
         for sh in doc.shapes:
             C = l2c.get(sh.label_iri)
             if C is None:
+                if sh.n_instances == 0 or not sh.constraints:          # a shape without instances (remove_empty_shapes=False): no stem
+                    stems[sh.label_iri] = sh.min_iri
+                    if sh.min_iri is not None:
+                        emit("C17:stem-for-shape-without-instances", "stem %r printed for %s, which has no instance" % (sh.min_iri, sh.label_iri),
+                             shape=sh.label_iri, printed=sh.min_iri, option=opt, output=text[:1200])
                 continue
             iris = [x.iri for x in spec.inst.get(C, []) if isinstance(x, M.IRI)]
             if not iris or len(iris) != len(spec.inst.get(C, [])):
@@ -1124,7 +1155,10 @@ def check_C17(case, B):
         if shapes is not None:
             for lab, st in stems.items():
                 pat = shapes.get(lab, {}).get("pattern", [])
-                if pat != (["^" + st] if st is not None else []):
+                if lab not in l2c and st is None and pat:
+                    emit("C17:stem-for-shape-without-instances", "SHACL: sh:pattern %r for %s, which has no instance" % (pat, lab), shape=lab,
+                         shacl=ttl[:1200])
+                elif pat != (["^" + st] if st is not None else []):
                     emit("C17:shacl-pattern-differs", "shape %s: ShExC stem %r, SHACL sh:pattern %r" % (lab, st, pat), shacl=ttl[:1200], shexc=t1[:1200])
     except U.Skipped:
         pass
@@ -1188,12 +1222,40 @@ def _c17_nested_cases():
     return cases
 
 
+def _c17_special_cases():
+    """(a) the FIRST value seen for a property is a literal padded with blanks (native N-Triples reader); (b) a target class without
+    instances with remove_empty_shapes=False and detect_minimal_iri."""
+    M, S, G = U.lib()
+    A = G.EX + "A"
+    i1, i2 = M.IRI("https://a.org/x/i1"), M.IRI("https://a.org/x/i2")
+    cases = []
+    pads = [" Al ", "Bobby  ", "  Caz", " x", "y ", " two  words "]
+    for k in range(12):
+        a, b, c = pads[k % 6], pads[(k + 1) % 6], pads[(k + 2) % 6]
+        T = [M.Triple(i1, M.RDF_TYPE, M.IRI(A)), M.Triple(i2, M.RDF_TYPE, M.IRI(A)), M.Triple(i1, G.EX + "p", M.Lit(a)),
+             M.Triple(i1, G.EX + "p", M.Lit(a.strip())), M.Triple(i2, G.EX + "p", M.Lit(b)), M.Triple(i1, G.OTHER + "q", M.Lit(c)),
+             M.Triple(M.IRI(G.OTHER + "w1"), G.EX + "k", i1), M.Triple(i2, G.EX + "k", i1)]
+        if k % 3 == 0:
+            T = T[:2] + T[4:] + T[2:4]
+        cases.append({"pid": "C17", "origin": "padded-literal-examples", "nt": U.to_nt(T), "base": {"all_classes_mode": True},
+                      "inverse": k % 2 == 1, "modes": ["cons", "all"]})
+    for k in range(8):
+        T = [M.Triple(i1, M.RDF_TYPE, M.IRI(A)), M.Triple(i1, G.EX + "p", M.Lit("x"))]
+        if k % 2:
+            T += [M.Triple(i2, M.RDF_TYPE, M.IRI(A)), M.Triple(i2, G.EX + "p", i1)]
+        targets = [[A, G.EX + "Nobody"], [G.EX + "Nobody", A], [G.EX + "Nobody"], [A, G.EX + "Nobody", G.OTHER + "Nothing"]][k % 4]
+        cases.append({"pid": "C17", "origin": "target-class-without-instances", "nt": U.to_nt(T),
+                      "base": {"target_classes": targets, "remove_empty_shapes": False}, "inverse": k >= 4, "stems_only": True})
+    return cases
+
+
 def gen_C17(tier, rng):
     M, S, G = U.lib()
     n = {"selftest": 42, "quick": 12000, "thorough": 90000}[tier]
     cases = _c17_nested_cases()
     if tier == "selftest":
         cases = cases[::4]
+    cases += _c17_special_cases()
     for gi in range(n):
         nss = _C17_NAMESPACES[gi % len(_C17_NAMESPACES)]
         T = c17_graph(rng, nss)
@@ -1272,6 +1334,23 @@ def check_C15(case, B):
     extra = case.get("extra") or {}              # e.g. {"limit_remote_instances": 2, "instances_cap": 4}: given to BOTH runs
     selkw = _merge(_c15_selection(sel), extra)
     spec, l2c = _c15_spec(T, sel, inv, extra)
+    colliding = case.get("by_class_iri")         # classes with one local name: their shapes share a label (known, C05) and are told apart
+    if colliding:                                # by the class IRI of their rdf:type value set
+        l2c = dict((("class:" + C) if C in colliding else lab, C) for lab, C in
+                   [(U.label_of(C), C) for C in spec.N])
+
+    def relabel(nd):
+        if not colliding:
+            return nd
+        out = []
+        for sh in nd:
+            cs = [c["value"][1] for c in sh["cons"] if not c["inv"] and c["p"] == spec.pi and c["value"][0] == "valueset" and c["value"][1] in colliding]
+            if len(cs) == 1:
+                sh = dict(sh, label="class:" + cs[0])
+            elif len(cs) > 1:
+                B.notes["shape of a colliding class not identifiable by its rdf:type value set"] += 1
+            out.append(sh)
+        return out
 
     def emit(key, what, **kw):
         B.emit(key, what, _case_of(case), **kw)
@@ -1279,7 +1358,7 @@ def check_C15(case, B):
     def local(text):
         def go():
             return SU.shex(SU.new_shaper({"format": "nt", "text": text}, _merge(selkw, {"inverse_paths": inv})), SHEXC, 0)
-        return U.norm_doc(B.parse(B.call(go)))
+        return relabel(U.norm_doc(B.parse(B.call(go))))
     try:
         lo = local(nt)
     except U.Skipped:
@@ -1293,7 +1372,7 @@ def check_C15(case, B):
             cfg = _merge(selkw, {"inverse_paths": inv, "disable_endpoint_cache": cache_off, "depth_for_building_subgraph": 1,
                                  "track_classes_for_entities_at_last_depth_level": track})
             try:
-                out = U.norm_doc(B.parse(B.call(lambda cfg=cfg: SU.shex(SU.new_shaper({"endpoint": SU.FAKE_ENDPOINT}, cfg), SHEXC, 0))))
+                out = relabel(U.norm_doc(B.parse(B.call(lambda cfg=cfg: SU.shex(SU.new_shaper({"endpoint": SU.FAKE_ENDPOINT}, cfg), SHEXC, 0)))))
             except U.Skipped as exc:
                 emit("C15:endpoint-run-fails:%s" % SU.slug(exc.signature, 50), "the endpoint run (disable_endpoint_cache=%r) fails with %s while the local "
                      "run succeeds" % (cache_off, exc.signature), queries=list(ep.log)[:8])
@@ -1405,6 +1484,37 @@ def _c15_cap_cases(rng, n):
     return cases
 
 
+FOAF_PERSON, SCHEMA_PERSON, DBO_PERSON = "http://xmlns.com/foaf/0.1/Person", "http://schema.org/Person", "http://dbpedia.org/ontology#Person"
+
+
+def _c15_same_local_name_cases(rng, n):
+    """Target classes with different IRIs and ONE local name (foaf:Person, schema:Person, dbo#Person)."""
+    M, S, G = U.lib()
+    cases = []
+    for i in range(n):
+        classes = [FOAF_PERSON, SCHEMA_PERSON] + ([DBO_PERSON] if i % 3 == 2 else [])
+        T = []
+        for ci, C in enumerate(classes):
+            for j in range(rng.randint(1, 4)):
+                x = M.IRI(G.EX + "c%dp%d" % (ci, j))
+                T.append(M.Triple(x, M.RDF_TYPE, M.IRI(C)))
+                T.append(M.Triple(x, G.EX + ("name", "label", "title")[ci], M.Lit("n%d" % j)))
+                if rng.random() < 0.6:
+                    T.append(M.Triple(x, G.EX + "age", M.Lit(str(20 + j), dt=M.XSD_INTEGER) if ci != 1 else M.Lit("old")))
+                if rng.random() < 0.5:
+                    T.append(M.Triple(x, G.OTHER + "knows", M.IRI(G.OTHER + "u%d" % (j % 2))))
+        if i % 2:
+            b = M.IRI(G.EX + "b0")
+            T += [M.Triple(b, M.RDF_TYPE, M.IRI(G.CLASS_B)), M.Triple(b, G.PROP_P, M.Lit("x"))]
+        if i % 4 == 0:
+            rng.shuffle(T)
+        order = list(classes) if i % 2 == 0 else list(reversed(classes))
+        sel = ({"kind": "targets", "classes": order}, {"kind": "all"}, {"kind": "targets", "classes": order + [G.CLASS_B]})[i % 3]
+        cases.append({"pid": "C15", "origin": "classes-with-one-local-name", "nt": U.to_nt(T), "sel": sel, "inverse": i % 5 == 4,
+                      "track": i % 2 == 1, "by_class_iri": classes})
+    return cases
+
+
 def _c15_unlink(T, sel):
     """Drop the triples that link two selected nodes (the selection is recomputed until stable)."""
     for _ in range(10):
@@ -1424,6 +1534,7 @@ def gen_C15(tier, rng):
     n_nonhttp = {"selftest": 14, "quick": 200, "thorough": 1500}[tier]
     n_num = {"selftest": 10, "quick": 130, "thorough": 1000}[tier]
     cases += _c15_cap_cases(rng, {"selftest": 8, "quick": 60, "thorough": 400}[tier])
+    cases += _c15_same_local_name_cases(rng, {"selftest": 9, "quick": 60, "thorough": 400}[tier])
     for gi in range(n + n_nonhttp + n_num):
         T = _c15_graph(rng)
         nonhttp = n <= gi < n + n_nonhttp
@@ -1871,6 +1982,49 @@ def _mutants():
         seen.add(key)
         orig_annotate_subject(self, a_triple)
 
+    import shexer.utils.translators.list_of_classes_to_shape_map as lcm
+    import shexer.utils.triple_yielders as tyl
+    import shexer.io.graph.yielder.nt_triples_yielder as nty
+
+    def shex_graph_output_cache(self, string_output=False, output_file=None, output_format=SHEXC, acceptance_threshold=0, verbose=False,
+                                to_uml_path=None):
+        cache = self.__dict__.setdefault("_string_outputs", {})                    # seeded: per-format cache, fast path before the threshold test
+        if string_output and output_format in cache:
+            return cache[output_format]
+        out = orig_shex_graph(self, string_output=string_output, output_file=output_file, output_format=output_format,
+                              acceptance_threshold=acceptance_threshold, verbose=verbose, to_uml_path=to_uml_path)
+        if string_output:
+            cache[output_format] = out
+        return out
+
+    def selectors_by_local_name(self, str_list, instantiation_property, limit_remote_instances):
+        result = lcm.ShapeMap()
+        by_name = {}
+        for str_class in str_list:                                                 # seeded: keyed by the class's local name
+            by_name[self._get_shape_label_for_class_uri(str_class)] = str_class
+        for str_class in by_name.values():
+            raw = self._get_raw_selector_to_catch_instances_of_class_uri(class_uri=str_class, instantiation_property=str(instantiation_property),
+                                                                         limit_remote_instances=limit_remote_instances)
+            result.add_item(lcm.ShapeMapItem(node_selector=self._get_node_selector_object_for_raw_selector(raw),
+                                             shape_label=self._get_shape_label_for_class_uri(str_class)))
+        return result
+
+    orig_nt_tune_token = nty.tune_token
+
+    def tune_token_strips_content(a_token, *a, **kw):
+        r = orig_nt_tune_token(a_token, *a, **kw)
+        if isinstance(r, tyl.Literal):                                             # seeded: Literal(content=content.strip(), ...)
+            return tyl.Literal(content=str(r).strip(), elem_type=r.elem_type)
+        return r
+
+    orig_yield_base_shapes = ass.AbstractShexingStrategy.yield_base_shapes
+
+    def yield_base_shapes_skips_empty(self, acceptance_threshold):
+        for a_shape in self._yield_base_shapes_direction_aware(acceptance_threshold=acceptance_threshold):
+            if a_shape.n_instances != 0:                                           # seeded: the '%' placeholder is left for instance-less shapes
+                self._strategy_min_iri.annotate_shape_iri(a_shape)
+            yield a_shape
+
     def add_dominant_loses_inverse(self, statement):
         statement.is_inverse = False                                               # seeded: merged NONLITERAL statement loses is_inverse
         orig_add_dominant(self, statement)
@@ -1888,6 +2042,14 @@ def _mutants():
          setattr_patch(shp.Shaper, "__init__", init_limit_wins)),
         ("C17", "seeded: the stem is cut at the last '/' or '#', at ':' only when neither exists",
          setattr_patch(amis.AnnotateMinIriStrategy, "_determine_suitable_iri_pattern", pattern_colon_last_resort)),
+        ("C11", "seeded: shex_graph returns a per-format cached string before looking at the threshold",
+         setattr_patch(shp.Shaper, "shex_graph", shex_graph_output_cache)),
+        ("C15", "seeded: class selectors for the endpoint are collected in a dict keyed by the class's local name",
+         setattr_patch(lcm.ListOfClassesToShapeMap, "str_class_list_to_shape_map_sparql_selectors", selectors_by_local_name)),
+        ("C17", "seeded: the N-Triples reader strips the lexical form of literals",
+         setattr_patch(nty, "tune_token", tune_token_strips_content)),
+        ("C17", "seeded: yield_base_shapes does not annotate the stem of a shape without instances ('%' placeholder printed)",
+         setattr_patch(ass.AbstractShexingStrategy, "yield_base_shapes", yield_base_shapes_skips_empty)),
         ("C03", "duplicated lines: a repeated statement line counts for the node kind but not for the shape reference",
          setattr_patch(afds.AbstractFeatureDirectionStrategy, "_annotate_target_subject", annotate_subject_repeated_line_half)),
         ("C04", "seeded: the merged NONLITERAL statement loses is_inverse",
